@@ -404,6 +404,13 @@ func (c *container) recvAckReply(name string) error {
 func (c *container) recvReply() (reply, unixsocket.Msg, error) {
 	select {
 	case <-c.done:
+		// a reply received just before the socket failed is still queued: nobody will take it,
+		// do not keep the descriptors it carries
+		select {
+		case recv := <-c.recvCh:
+			closeFds(recv.Msg.Fds)
+		default:
+		}
 		return reply{}, unixsocket.Msg{}, c.err
 
 	case recv := <-c.recvCh:
